@@ -16,11 +16,22 @@ pub fn get_conflict_watch_key(change: &Change) -> String {
 }
 impl Database {
     pub fn list_conflicts_keys(&self, key: &String) -> Vec<String> {
-        let pendding_conflict = self.list_keys(
-            &String::from(format!("{prefix}_{key}", key = key, prefix = CONFLICTS_KEY)),
-            true,
-        );
+        let conflict_prefix = String::from(format!("{prefix}_{key}", key = key, prefix = CONFLICTS_KEY));
+        let pendding_conflict = self.list_keys(&conflict_prefix, true);
+        if key.is_empty() {
+            // List all
+            return pendding_conflict;
+        }
+        // list_keys matches by contains, keep only the conflicts of this exact key
+        // ($conflicts_<key>_<opp_id>), not the ones of keys that merely start with it
+        let exact_prefix = format!("{}_", conflict_prefix);
         pendding_conflict
+            .into_iter()
+            .filter(|conflict_key| match conflict_key.strip_prefix(&exact_prefix) {
+                Some(opp_id) => opp_id.parse::<u64>().is_ok(),
+                None => false,
+            })
+            .collect()
     }
     // Separate local conflict with replication conflict
     pub fn try_resolve_conflict_response(
